@@ -892,10 +892,10 @@ class PDir(Config):
     try:
         M.PU(e=3)
         impl["enumAssert"] = False
-    except AssertionError:
-        impl["enumAssert"] = True
-    except Exception:
-        impl["enumAssert"] = False
+    except Exception as e:
+        # "assertion" = an exception that unions do not handle (they catch ValueError / TypeError); an exception that is
+        # both a ValueError and an AssertionError (kept for callers of the old behaviour) counts as "invalid"
+        impl["enumAssert"] = exc_class(e) == "assertion"
     try:
         impl["cfgNoneOk"] = M.PU(l=[None]).__xpm__.values.get("l") == [None]
     except Exception:
